@@ -191,6 +191,12 @@ lex!(c09_tok_char_ascii, 8, [1, 1, 1, 1], { text![b'\'', ascii(), ascii(), ascii
 lex!(c09_tok_char_w2, 8, [1, 2, 1], { text![b'\'', lead2(), cont(), ascii()] });
 //@ tier=quick cap=900 mem=12 funcs=Tokenizer::char_literal,StrSuffix::restore_char bound=quote_then_any_3_byte_char_then_ASCII
 lex!(c09_tok_char_w3, 8, [1, 3, 1], { let (l, c) = lead3(); text![b'\'', l, c, cont(), ascii()] });
+//@ tier=thorough cap=1800 mem=15 funcs=Tokenizer::char_literal,StrSuffix::restore_char,StrSuffix::bytes_prefix bound=quote_then_any_4_byte_char_then_ASCII
+lex!(c09_tok_char_w4, 8, [1, 4, 1], { let (l, c) = lead4(); text![b'\'', l, c, cont(), cont(), ascii()] });
+//@ tier=thorough cap=1800 mem=15 funcs=Tokenizer::char_literal,StrSuffix::restore_char,StrSuffix::bytes_prefix bound=quote_ASCII_then_any_2_byte_char_at_the_end_of_the_text
+lex!(c09_tok_char_then_w2, 8, [1, 1, 2], { text![b'\'', ascii(), lead2(), cont()] });
+//@ tier=thorough cap=1800 mem=15 funcs=Tokenizer::char_literal,StrSuffix::restore_char,StrSuffix::bytes_prefix bound=quote_then_any_3_byte_char_at_the_end_of_the_text
+lex!(c09_tok_char_w3_end, 8, [1, 3], { let (l, c) = lead3(); text![b'\'', l, c, cont()] });
 //@ tier=thorough cap=1800 mem=15 funcs=Tokenizer::char_literal,Tokenizer::escape_code bound=quote_backslash_then_any_2_byte_char_then_ASCII
 lex!(c09_tok_char_escape_w2, 8, [1, 1, 2, 1], { text![b'\'', b'\\', lead2(), cont(), ascii()] });
 //@ tier=thorough cap=1800 mem=15 funcs=Tokenizer::char_literal,Tokenizer::escape_code bound=quote_backslash_then_any_3_byte_char_then_ASCII
